@@ -722,4 +722,130 @@ theorem run_eq (d : Decl) (s : Agg) (h : Inv d s) (ops : List Op) : run d (abs s
     simp only [run, Agg.run, hs.1]
     rw [ih _ hs.2]
 
+
+/-! ### uniqueness as an invariant of EXPRESS values under `step` -/
+
+/-- "no duplicate in SET or in a UNIQUE ARRAY/LIST", as a predicate on EXPRESS values -/
+def UniqueOK (d : Decl) : Value → Prop
+  | .array a => d.unique = true → ∀ hi, d.hi = some hi →
+      ∀ j ∈ indices d.lo hi, ∀ k ∈ indices d.lo hi, j ≠ k → ∀ x, a j = some x → a k ≠ some x
+  | .list l => d.unique = true → l.Nodup
+  | .bag _ => True
+  | .set s => s.Nodup
+
+theorem nodup_set_of_absent (l : List Val) (k : Nat) (x : Val) (hl : l.Nodup)
+    (hx : ∀ j, j < l.length → j ≠ k → l[j]? ≠ some x) : (l.set k x).Nodup := by
+  unfold List.Nodup at hl ⊢
+  rw [List.pairwise_iff_getElem] at hl ⊢
+  intro i j hi hj hij
+  simp only [List.length_set] at hi hj
+  rw [List.getElem_set, List.getElem_set]
+  by_cases hki : k = i
+  · have hkj : ¬ k = j := by omega
+    rw [if_pos hki, if_neg hkj]
+    intro he
+    exact hx j hj (by omega) (by rw [List.getElem?_eq_getElem hj, he])
+  · by_cases hkj : k = j
+    · rw [if_neg hki, if_pos hkj]
+      intro he
+      exact hx i hi (by omega) (by rw [List.getElem?_eq_getElem hi, he])
+    · rw [if_neg hki, if_neg hkj]
+      exact hl i j hi hj hij
+
+theorem uniqueOK_initial (d : Decl) : UniqueOK d (initial d) := by
+  unfold initial
+  cases d.kind <;> simp [UniqueOK]
+
+theorem uniqueOK_step (d : Decl) (v : Value) (h : UniqueOK d v) (op : Op) : UniqueOK d (step d v op).1 := by
+  cases v with
+  | array a =>
+    simp only [step]
+    cases hh : d.hi with
+    | none => exact h
+    | some b =>
+      simp only
+      cases op with
+      | set i x =>
+        simp only
+        split
+        · rename_i hal
+          intro hu hi' hhi' j hj k hk hjk y hy
+          rw [hh] at hhi'; cases hhi'
+          have hal4 := hal.2.2.2 hu
+          simp only [arraySet] at hy ⊢
+          by_cases hji : j = i
+          · rw [if_pos hji] at hy; cases hy
+            have hki : ¬ k = i := by omega
+            rw [if_neg hki]
+            exact hal4 k hk hki
+          · rw [if_neg hji] at hy
+            by_cases hki : k = i
+            · rw [if_pos hki]
+              intro he; cases he
+              exact hal4 j hj hji hy
+            · rw [if_neg hki]
+              exact h hu b hh j hj k hk hjk y hy
+        · exact h
+      | get i => simp only; split <;> exact h
+      | _ => exact h
+  | list l =>
+    simp only [step]
+    cases op with
+    | set i x =>
+      simp only
+      split
+      · rename_i hal
+        intro hu
+        have hl := h hu
+        have hal5 := hal.2.2.2.2 hu
+        unfold listSet
+        split
+        · rename_i hi
+          have hx : x ∉ l := by
+            intro hm
+            rcases List.mem_iff_getElem?.mp hm with ⟨j, hj⟩
+            have hjl : j < l.length := (List.getElem?_eq_some_iff.mp hj).1
+            exact hal5 j hjl (by omega) hj
+          rw [List.nodup_append]
+          refine ⟨hl, by simp, ?_⟩
+          intro a ha b hb
+          simp only [List.mem_singleton] at hb
+          subst hb
+          intro hab; subst hab; exact hx ha
+        · rename_i hi
+          apply nodup_set_of_absent l _ x hl
+          intro j hj hne
+          exact hal5 j hj (by have := hal.1; omega)
+      · exact h
+    | get i => simp only; split <;> exact h
+    | _ => exact h
+  | bag b =>
+    simp only [step]
+    cases op <;> simp only <;> first | trivial | (split <;> trivial)
+  | set s =>
+    simp only [step]
+    cases op with
+    | add x =>
+      simp only
+      split
+      · unfold setAdd
+        split
+        · exact h
+        · rename_i hm
+          exact (nodup_insertSorted x s).mpr ⟨hm, h⟩
+      · exact h
+    | _ => exact h
+
+
+theorem uniqueOK_after (d : Decl) (s : Agg) (hi : Inv d s) (hu : UniqueOK d (abs s)) (ops : List Op) :
+    UniqueOK d (abs (s.after ops)) := by
+  induction ops generalizing s with
+  | nil => exact hu
+  | cons op ops ih =>
+    have hs := agg_sim d s hi op
+    apply ih _ hs.2
+    have : abs (s.step op).1 = (step d (abs s) op).1 := by rw [hs.1]
+    rw [this]
+    exact uniqueOK_step d _ hu op
+
 end StepModel.PyAgg
